@@ -392,7 +392,7 @@ impl Check for C15 {
                         ser.packets.iter().flat_map(|p| p.as_ref().unwrap().bytes.clone()).collect()
                     }
                     1 | 2 => {
-                        let cfg = ForeignCfg { max_msgs: 12, max_len: 2500, max_chunks: 300, scs_pct: 8, nonminimal_ok: true };
+                        let cfg = ForeignCfg { max_msgs: 12, max_len: 2500, max_chunks: 300, scs_pct: 8, nonminimal_ok: true, many_one_in: 150 };
                         let f = foreign::gen_foreign(rng, &cfg);
                         let w = f.wire();
                         if origin_i == 2 {
@@ -429,6 +429,7 @@ impl Check for C15 {
                         2 => 4, // mutated
                         _ => 3, // hostile chunks
                     };
+                    let gen = if origin_i == 0 && rng.chance(1, 60) { 6 } else { gen }; // > 1024 tiny valid messages
                     let mut b = c03::gen_stream_for_c15(gen, rng, &mut enc, hint);
                     if origin_i == 0 && rng.coin() {
                         b.extend(c03::gen_stream_for_c15(1, rng, &mut enc, hint));
